@@ -508,7 +508,8 @@ where
                 if read == *max_message_size {
                     // If the source yields more data, the message exceeds the supported size
                     // and we error out
-                    if source.read_u8().is_ok() {
+                    // (an error of the source is an error, not the end of the stream)
+                    if source.has_remaining()? {
                         return Err(io::Error::other(
                             "Input stream too long for ProtectedCheckFirst mode",
                         ));
